@@ -132,3 +132,50 @@ impl SsuServer {
         Ok(dst.to_vec())
     }
 }
+
+/// `threads` udp sessions at once through one shared server codec (and the process-wide cipher cache):
+/// every packet must come out exactly as it does when its session runs alone
+pub fn par(rt: &tokio::runtime::Runtime, cipher: &str, password: &str, threads: usize, packets: usize, seed: u64) -> String {
+    let Ok(srv) = server(cipher, password, &[]) else { return "err".into() };
+    let mut clients = vec![];
+    for _ in 0..threads {
+        let Ok(c) = client(rt, cipher, password) else { return "err".into() };
+        clients.push(c);
+    }
+    let ok = std::sync::atomic::AtomicUsize::new(0);
+    let bad = std::sync::atomic::AtomicUsize::new(0);
+    let barrier = std::sync::Barrier::new(threads);
+    let is2022 = cipher.starts_with("2022");
+    std::thread::scope(|s| {
+        for (ti, mut c) in clients.into_iter().enumerate() {
+            let (srv, ok, bad, barrier) = (&srv, &ok, &bad, &barrier);
+            s.spawn(move || {
+                let mut rng = Rng::new(seed ^ (ti as u64).wrapping_mul(0x9e3779b97f4a7c15));
+                barrier.wait();
+                for i in 0..packets {
+                    let n = rng.below(600) as usize;
+                    let payload = rng.bytes(n);
+                    let addr = Address::Domain(format!("h{}-{}.example", ti, i), 1000 + i as u16);
+                    let r = std::panic::catch_unwind(std::panic::AssertUnwindSafe(|| {
+                        let w = c.encode(addr.clone(), &payload).ok()?;
+                        let d = srv.decode(&w);
+                        let want = format!("{} data={}", show_addr(&addr), hex(&payload));
+                        if !(d.starts_with("ok ") && d.ends_with(&want)) {
+                            return None;
+                        }
+                        // the answer of this session comes back to this session
+                        let csid = d.split(' ').find_map(|x| x.strip_prefix("csid=")).and_then(|x| x.parse::<u64>().ok())?;
+                        let back = srv.encode(csid, 7000 + ti as u64, i as u64, None, addr.clone(), &payload).ok()?;
+                        let e = c.decode(&back);
+                        if is2022 || i == 0 || !e.is_empty() { Some(e == format!("ok {} data={}", show_addr(&addr), hex(&payload))) } else { Some(false) }
+                    }));
+                    match r {
+                        Ok(Some(true)) => ok.fetch_add(1, std::sync::atomic::Ordering::SeqCst),
+                        _ => bad.fetch_add(1, std::sync::atomic::Ordering::SeqCst),
+                    };
+                }
+            });
+        }
+    });
+    format!("ok={} bad={}", ok.into_inner(), bad.into_inner())
+}
